@@ -23,11 +23,13 @@ type Engine struct {
 	GBV      *Global
 	TEBV     *TypeEnv
 	immHeaps map[string]bool
+	acq      map[*ssa.Function]int
+	acqBusy  map[*ssa.Function]bool
 	axiomsDone map[string]bool
 }
 
 func newEngine(p *Program, cs *Contracts) *Engine {
-	e := &Engine{P: p, CS: cs, closures: map[string]*FnVal{}, fnByKey: map[string]*ssa.Function{}, writes: map[*ssa.Function]map[string]HeapVar{}, writing: map[*ssa.Function]bool{}, Noop: map[string]bool{}, PureM: map[string]bool{}, axiomsDone: map[string]bool{}}
+	e := &Engine{P: p, CS: cs, closures: map[string]*FnVal{}, fnByKey: map[string]*ssa.Function{}, writes: map[*ssa.Function]map[string]HeapVar{}, writing: map[*ssa.Function]bool{}, Noop: map[string]bool{}, PureM: map[string]bool{}, axiomsDone: map[string]bool{}, acq: map[*ssa.Function]int{}, acqBusy: map[*ssa.Function]bool{}}
 	e.G = newGlobal()
 	e.TE = newTypeEnv(e.G, false)
 	e.GBV = newGlobal()
